@@ -101,6 +101,15 @@ def check_cfg(job):
         sc = max(1.0, float(np.abs(ex).max()))
         if not np.allclose(y, ex, atol=tol * sc, rtol=0):
             out.append(("value", "%s input: max |%s(x) - DFT-matrix definition| = %.3g" % (name, cfg["dir"], float(np.abs(y - ex).max()))))
+    # the same values in another memory layout (Fortran order, strided view): same transform, input untouched
+    y_c = fn(x128, oshape=osh, axes=axes, center=cfg["center"], norm=norm)
+    for lab, xv in core.layouts(x128):
+        xv0 = xv.copy()
+        yv = fn(xv, oshape=osh, axes=axes, center=cfg["center"], norm=norm)
+        if yv.shape != y_c.shape or not np.allclose(yv, y_c, atol=1e-12 * max(1.0, float(np.abs(y_c).max())), rtol=0):
+            out.append(("value", "%s input: %s differs from the transform of the same values in C order" % (lab, cfg["dir"])))
+        if not np.array_equal(xv, xv0):
+            out.append(("input_mutated", "%s modified its %s input" % (cfg["dir"], lab)))
     # round trip and norm (default orthonormal scaling, no resize)
     if cfg["ortho"] and osh is None:
         y = fn(x128, axes=axes, center=cfg["center"])
